@@ -25,7 +25,7 @@ NCASES = {'quick': 1600, 'thorough': 50000}
 MIN_NONTRIVIAL = {'quick': 600, 'thorough': 20000}
 TIME_CAP = {'quick': 300, 'thorough': 3600}
 REQUIRED_CLASSES = (
-    ['text-read-from-file'] + ['type-' + M.type_kw(dt, sfx) for dt, sfx in M.TYPES] +
+    ['text-read-from-file', 'str-with-unusual-character'] + ['type-' + M.type_kw(dt, sfx) for dt, sfx in M.TYPES] +
     ['edge:table-cells', 'edge:table-cell-special-characters', 'scalar-bool', 'scalar-int', 'scalar-float', 'scalar-str', 'value-none',
      'int-negative', 'int-plus-sign', 'float-form-int', 'float-form-dec', 'float-form-sci', 'float-negative',
      'str-bare', 'str-single-quoted', 'str-double-quoted', 'str-block', 'str-with-blank', 'str-with-hash',
